@@ -912,6 +912,19 @@ class Mesh2DTopology:
         # Check for the standard name
         if two in self.dataset.sizes and self.dataset.sizes[two] == 2:
             return two
+        # Use the dimension of size 2 of an edge connectivity variable of this mesh.
+        # Any other dimension of size 2 (two time steps, two layers)
+        # has nothing to do with the mesh.
+        for key in ['edge_node_connectivity', 'edge_face_connectivity']:
+            name = self.mesh_attributes.get(key)
+            if name is not None and name in self.dataset.variables:
+                dimensions = [
+                    dimension for dimension in self.dataset.variables[name].dims
+                    if self.dataset.sizes[dimension] == 2
+                    and dimension != self.mesh_attributes.get('edge_dimension')
+                ]
+                if len(dimensions) == 1:
+                    return dimensions[0]
         # Check for any other dimension of size 2
         for name, size in self.dataset.sizes.items():
             if size == 2:
